@@ -833,8 +833,14 @@ class R(Sym):
             rn, rd = math.isqrt(n), math.isqrt(d)
             if rn * rn == n and rd * rd == d:
                 return R(Fraction(rn, rd))
+        t = self.v
+        if z3.is_app(t) and t.decl().kind() == z3.Z3_OP_MUL and t.num_args() == 2 and t.arg(0).eq(t.arg(1)):
+            a = t.arg(0)            # sqrt(a*a) = |a|
+            return R(z3.If(a >= 0, a, -a))
         c = ctx()
         if c.branch(self.z3() < 0):
+            if getattr(c, 'allow_nan', False):
+                return NAN
             raise NonFinite('sqrt of negative')
         s = c.fresh_real('sqrt')
         c.add(s >= 0)
